@@ -142,6 +142,11 @@ int main(int argc, char** argv)
 	for(int c = 0; c < nu; c++)
 	{
 		double u = std::pow(10.0, g.uni(-40, 40)) * g.uni(1, 10);
+		if(c % 5 == 0)
+		{	// units whose numerical value is a round number (GeV = 1 exactly, powers of ten, powers of two): no shortcut may skip the rounding
+			static const double RU[] = {1.0, 1.0, 1e3, 1e-3, 1e-9, 0.5, 1024.0};
+			u = RU[(c / 5) % 7];
+		}
 		int n = (int)g.range(1, 6), m = (int)g.range(1, 5), digits = (int)g.range(1, 7);
 		std::vector<double> xs(n);
 		for(auto& x : xs)
